@@ -224,6 +224,9 @@ def _worker(args):
 
 def _run_hypothesis(prop, ctx, nexamples, hseed):
     from hypothesis import given, settings, seed as hseed_deco, strategies as st, HealthCheck, Phase
+    import hypothesis.internal.conjecture.engine as _ce
+    # a failing case is already a violation; bound the time spent on making it smaller (default 300 s per worker)
+    _ce.MAX_SHRINKING_SECONDS = 60 if ctx.tier == 'quick' else 240
     state = {'last': None, 'target': None}
     nbytes = prop.bytes_per_case
 
